@@ -169,14 +169,16 @@ example : (Rep.slice .count 3 none).wf ∧
 
 /-- `chain` on well-formed operands never panics; an empty operand (canonical or lazily empty) yields the other
 operand; the result is an error value exactly when the left operand is infinite (and the right one is not
-empty) or the total length does not fit `usize`; otherwise the new chain is well formed. -/
+empty), the total length does not fit `usize`, or (right operand infinite) the finite parts in front of its
+infinite tail plus the left operand do not fit `usize`; otherwise the new chain is well formed. -/
 theorem chain_wf (a b : Rep) (ha : a.wf) (hb : b.wf) :
     match a.mkChain b with
     | .new r => r.wf
     | .left => (den b).len = some 0
     | .right => (den a).len = some 0
     | .err _ => ((den a).len = none ∧ (den b).len ≠ some 0) ∨
-        (∃ n m, (den a).len = some n ∧ (den b).len = some m ∧ USIZE ≤ n + m)
+        (∃ n m, (den a).len = some n ∧ (den b).len = some m ∧ USIZE ≤ n + m) ∨
+        (∃ n, (den a).len = some n ∧ (den b).len = none ∧ USIZE ≤ n + b.finPrefix)
     | .panic _ => False := mkChain_wf a b ha hb
 
 /-- In all four Chain/non-Chain combinations the new representation (spliced parts, midpoints of the right
@@ -319,5 +321,54 @@ theorem insert_index (n : Nat) (hn : n < USIZE) :
     rw [idx_norm_finite n _ hn]; repeat' split
     all_goals first | rfl | (exfalso; omega)
 
+
+/-! ### the library functions written in xray, and the lazy constructors -/
+
+/-- `reverse` (include.rs:534-537) of a finite sequence of `n < 2^63` elements is a well-formed lazy sequence of
+length `n` whose `i`-th element is element `n-1-i` of the original list -/
+theorem reverse_list (r : Rep) (h : r.wf) (n : Nat) (hn : (den r).len = some n)
+    (hb : (n : Int) < 9223372036854775808) :
+    ∃ s, reverseB r = .seq s ∧ s.wf ∧ (den s).len = some n ∧
+      ∀ i, i < n → (den s).el i = (den r).el (n - 1 - i) := reverse_spec r h n hn hb
+
+/-- `repeat()` (include.rs:518-524) of a non-empty finite sequence is a well-formed infinite sequence whose
+`i`-th element is element `i mod n` of the original list -/
+theorem repeat_list (r : Rep) (h : r.wf) (n : Nat) (hn : (den r).len = some n) (hpos : 0 < n) (hb : n < USIZE) :
+    ∃ s, repeatB r = .seq s ∧ s.wf ∧ (den s).len = none ∧ ∀ i, (den s).el i = (den r).el (i % n) :=
+  repeat_spec r h n hn hpos hb
+
+/-- `enumerate` (include.rs:453-455): empty for an empty argument, otherwise the pairs `(start + i*offset, a[i])` -/
+theorem enumerate_list (r : Rep) (h : r.wf) (s o : Int) :
+    (r.isEmpty = true → enumerateB r s o = .seq .empty) ∧
+    (r.isEmpty = false → enumerateB r s o = .seq (.zip [count2 s o, r]) ∧
+      (Rep.zip [count2 s o, r]).wf ∧
+      (den (.zip [count2 s o, r])).len = (den r).len ∧
+      ∀ i, (den (.zip [count2 s o, r])).el i = (match (den r).el i with
+        | .ok v => .ok (.tup [.int (i * o + s), v])
+        | .err m => .err m
+        | .panic m => .panic m)) := enumerate_spec r h s o
+
+/-- `zip` (after the fix: all arguments first, then the emptiness shortcut) is `Empty` when a member is empty,
+otherwise a well-formed `Zip` whose length is the minimum of the finite member lengths; `map`/`unzip` keep the
+length and apply the function / projection element-wise; errors of elements stay errors of elements -/
+theorem zip_map_unzip_list (rs : List Rep) (hw : wfAll rs) (hne : rs ≠ []) (r : Rep) (hr : r.wf) (f : PFn) :
+    (rs.any Rep.isEmpty = true → zipB rs = .seq .empty) ∧
+    (rs.any Rep.isEmpty = false → zipB rs = .seq (.zip rs) ∧ (Rep.zip rs).wf ∧
+      (den (.zip rs)).len = minOpt ((denList rs).map (·.len))) ∧
+    (mapB r f = .seq (.map r f) ∧ (Rep.map r f).wf ∧ (den (.map r f)).len = (den r).len ∧
+      ∀ i, (den (.map r f)).el i = elemMap f ((den r).el i)) := by
+  refine ⟨fun h => by simp [zipB, h], fun h => ⟨by simp [zipB, h], by simp [Rep.wf, hw, hne], rfl⟩,
+    rfl, by simpa [Rep.wf] using hr, rfl, fun i => rfl⟩
+
+/-! ### no operation alters the sequences it was applied to -/
+
+/-- Immediate in the pure model (an operation is a function of its arguments and nothing else can change
+them); stated for the copying updates to document the clause: whatever update is evaluated, the length and
+every element of the input, observed afterwards, are what they were before.  On the implementation side the
+clause is checked by the tie (every sequence is observed again after all later operations). -/
+theorem inputs_unchanged (r : Rep) (x : Val) (i j : Int) (upd : V)
+    (_h : upd ∈ [pushB r x, rpushB r x, insertB r i x, popB r i, setB r i x, swapB r i j, toArrayB r]) :
+    ∀ (before : Sem), before = den r → (den r).len = before.len ∧ ∀ k, (den r).el k = before.el k := by
+  intro before hb; subst hb; exact ⟨rfl, fun _ => rfl⟩
 
 end XrayModel.C15
